@@ -132,3 +132,69 @@ def canon_fact(e: ast.AST, pol: bool):
 
 def canon_facts(cfg, node, **kw):
     return [canon_fact(e, pol) for e, pol in guard_facts(cfg, node, **kw)]
+
+
+def _atoms_and_eval(e: ast.AST):
+    """Boolean structure of `e`: returns (atoms, fn) where atoms are canonical texts of the non-boolean leaves (a `!=` leaf is the negation of the `==`
+    atom, `is None` of `is not None`, `not in` of `in`) and fn(assignment: dict) evaluates e."""
+    from .model import norm
+    atoms = []
+
+    def leaf(x):
+        t, pol = canon_fact(x, True)
+        if t not in atoms:
+            atoms.append(t)
+        return lambda a, t=t, pol=pol: a[t] if pol else (not a[t])
+
+    def build(x):
+        if isinstance(x, ast.BoolOp):
+            parts = [build(v) for v in x.values]
+            if isinstance(x.op, ast.And):
+                return lambda a: all(p(a) for p in parts)
+            return lambda a: any(p(a) for p in parts)
+        if isinstance(x, ast.UnaryOp) and isinstance(x.op, ast.Not):
+            inner = build(x.operand)
+            return lambda a: not inner(a)
+        if isinstance(x, ast.Call) and isinstance(x.func, ast.Name) and x.func.id == "bool" and len(x.args) == 1:
+            return build(x.args[0])
+        return leaf(x)
+    fn = build(e)
+    return atoms, fn
+
+
+def call_condition(cfg: CFG, node: int, fi=None, mention: Tuple[str, ...] = ()):
+    """The condition under which `node` executes, restricted to the controlling tests that mention one of the `mention` substrings after every local has been
+    resolved to its definition: (atoms, fn).  Named booleans, De Morgan rewrites, nesting and guard clauses all give the same truth table."""
+    from .dataflow import resolved, inline_new_helpers
+    from .model import norm
+    parts = []
+    atoms_all = []
+    for t, lab in cfg.controlling_tests(node):
+        test = getattr(cfg.nodes[t].ast, "test", None)
+        if test is None:
+            continue
+        r = resolved(cfg, t, test)
+        if fi is not None:
+            r = inline_new_helpers(r, fi)
+        if mention and not any(m in norm(r) for m in mention):
+            continue
+        atoms, fn = _atoms_and_eval(r)
+        for a in atoms:
+            if a not in atoms_all:
+                atoms_all.append(a)
+        parts.append((fn, lab == "T"))
+
+    def total(a):
+        return all((fn(a) if pol else not fn(a)) for fn, pol in parts)
+    return atoms_all, total, len(parts)
+
+
+def same_truth_table(atoms, fn, expected_atoms, expected_fn) -> bool:
+    import itertools
+    if set(atoms) != set(expected_atoms):
+        return False
+    for vals in itertools.product([False, True], repeat=len(atoms)):
+        a = dict(zip(atoms, vals))
+        if bool(fn(a)) != bool(expected_fn(a)):
+            return False
+    return True
